@@ -41,7 +41,8 @@ class C04(common.Spec):
             return edzed.Timer
         if kind == 'inputexp':
             return edzed.InputExp
-        ns = {'STATES': list(d['states']),
+        # timed states may be declared by TIMERS alone
+        ns = {'STATES': list(d.get('states_decl', d['states'])),
               'EVENTS': [[ev, frm, nxt] for ev, frm, nxt in d['events']],
               'TIMERS': {st: (DUR[du][0], mk_etype(tev)) for st, du, tev in d['timed']}}
         for ev, c in d['cond']:
@@ -304,8 +305,27 @@ def generic_def(rng):
     if rng.random() < 0.35:
         st = rng.choice(states)
         enter_goto.append([st, rng.choice([x for x in states if x != st])])
-    return dict(states=states, all_states=states, events=events, timed=timed, inst_dur=inst, cond=cond,
-                enter_goto=enter_goto, init=[['goto', states[0]], None])
+    res = dict(states=states, all_states=states, events=events, timed=timed, inst_dur=inst, cond=cond,
+               enter_goto=enter_goto, init=[['goto', states[0]], None])
+    if timed and rng.random() < 0.35:
+        tnames = [t[0] for t in timed]
+        decl = [x for x in states if x not in tnames]
+        res['states_decl'] = decl
+        # the default initial state is the first known state: STATES first, then the keys of TIMERS
+        res['init'] = [['goto', (decl + tnames)[0]], None]
+    return res
+
+
+def init_failure_possible(d):
+    eff = {}
+    for st, du, _tev in d['timed']:
+        eff[st] = du
+    for st, du in d['inst_dur']:
+        if du != 'none':
+            eff[st] = du
+    if any(du in ('none', 'zero', 'neg') for du in eff.values()):
+        return True          # a missing duration fails, immediate timers may chain for ever
+    return bool(d.get('enter_goto'))
 
 
 def gen_case(rng):
@@ -355,6 +375,14 @@ def check(run):
             run.count('step_' + s[0])
         if 'init_error' in o:
             run.count('init_error')
+            if c['kind'] == 'generic' and not init_failure_possible(c['def']):
+                # every timed state has a positive or infinite duration and nothing is chained at
+                # start-up: neither the code nor the model knows a reason for the start-up to fail
+                run.count('init_error_without_cause')
+                run.violation('monitor', dict(case=c, observed=o),
+                              f"the start-up of a timed FSM failed ({o['init_error']}) although every timed "
+                              f"state has a positive duration and no action chains another event: {c['def']}",
+                              clause='startup_failed_without_cause', concrete=True)
 
 
 def replay(run, path):
